@@ -278,8 +278,10 @@ ReadsServe == (l > 1 /\ LastEv.e = "reads") => LastEv.bad = 0
 HealWorks == (l > 1 /\ LastEv.e = "heal") => LastEv.ok
 
 \* C04: recovery's repairs only ever touch blocks that belong to no live record
-RepairsSafe == \A i \in 1 .. Len(pend) :
-                 pend[i].kind = "d" => (pend[i].at .. (pend[i].at + Len(pend[i].c) - 1)) \cap live0 = {}
+\* (only the newest write needs checking in each state: the earlier ones were checked when issued)
+RepairsSafe == Len(pend) > 0 =>
+                 LET w == pend[Len(pend)] IN
+                 w.kind = "d" => (w.at .. (w.at + Len(w.c) - 1)) \cap live0 = {}
 
 NoUnknownRegion == \A i \in 1 .. Len(pend) : pend[i].kind # "x"
 
